@@ -182,6 +182,13 @@ def literal_phase(chk, gb, cases, outs, stats):
             corr.append('model runner (literal schema): %s' % sline[:120])
         else:
             stats['class_free_schema'], stats['lits_typed'] = int(m.group(1)), int(m.group(2))
+            m2 = re.search(r' wf_proj ([01]) elems_proj ([01])', sline)
+            if m2:
+                # hypotheses of C20_default_encoding_conforms: the projected schema is well-formed, no void container elements
+                stats['wf_projected_schema'], stats['elems_ok_projected_schema'] = int(m2.group(1)), int(m2.group(2))
+                if m2.group(1) != '1' or m2.group(2) != '1':
+                    corr.append('the corpus is outside the hypotheses of C20_default_encoding_conforms (wf_schema (proj S)=%s, '
+                                'elems_ok (proj S)=%s)' % (m2.group(1), m2.group(2)))
             # documents of repaired shapes (gengen.repair_docs) are modelled and compared, but stay outside the domain of the
             # general theorems (LitClass still counts an Arc target / a container-const reference as a class)
             repaired_in_corpus = any(t.split('.')[0] in REPAIR_DOC_NAMES for t in tys)
